@@ -105,9 +105,8 @@ theorem nextWait_safe (base max keep : Int) (jitter : Bool) (n rnd : Int) :
       have a4 : (2 : Int) ^ n.toNat > 0 := by omega
       have a5 : rnd > 0 → rnd ≠ 0 := by omega
       have p3 := two_pow_mono (Nat.zero_le (n.toNat - 1))
-      cases jitter <;> simp [h1, h2, hw, hs, hs', a2, a4]
-      · exact Or.inr (Or.inr ⟨⟨by omega, by omega⟩, Or.inr (by omega)⟩)
-      · omega
+      -- closed by linear reasoning over the atoms above, whatever the order / nesting of the translated conditions
+      cases jitter <;> simp [h1, h2, hw, hs, hs', a2, a4] <;> omega
 
 /-- Raw edges of `nextWait`, exactly as the code behaves. They are unreachable through the exported API, which
 normalises `BackOff ≤ 0 → 1`, `Max ≤ 0 → MaxInt64` first (`api_wait_bounds`). -/
